@@ -131,6 +131,7 @@ fn run_generic(env: &mut Env, target: Target) -> Outcome {
     if is_tpkt { tp = Some(tpkt::Client::new(link)); } else { lk = Some(link); }
 
     let mut reference: Vec<u8> = Vec::new();
+    let mut unfinished: Option<(Vec<u8>, usize)> = None;
     for (i, p) in payloads.iter().enumerate() {
         let before = wire.borrow().c2s_all.len();
         let fired_before: u64 = ctxrc.borrow().faults.iter().filter(|(k, _)| **k != "short_write").map(|(_, v)| *v).sum();
@@ -173,27 +174,51 @@ fn run_generic(env: &mut Env, target: Target) -> Outcome {
                 }
             }
         }
+        // a frame cut by an earlier reported error may be taken up again by a write of the same bytes
+        let resumes: Option<usize> = match &unfinished {
+            Some((f, k)) if *f == frame && emitted.len() <= f.len() - *k && emitted == &f[*k..*k + emitted.len()] && !(emitted.is_empty() && *k < f.len() && res.is_ok()) => Some(*k),
+            _ => None,
+        };
         match res {
             Ok(_) => {
-                if emitted.len() < frame.len() && emitted == &frame[..emitted.len()] {
+                if emitted == &frame[..] {
+                    // exactly one frame (also right behind a frame an earlier error cut short: the statement asks no more)
+                    unfinished = None;
+                } else if resumes.map(|k| k + emitted.len() == frame.len()).unwrap_or(false) {
+                    ctxrc.borrow_mut().probe("cut_frame_completed_by_a_retry");
+                    unfinished = None;
+                } else if emitted.len() < frame.len() && emitted == &frame[..emitted.len()] {
                     return viol("c14/silent-loss", &format!("{} {}", if is_tpkt { "tpkt" } else { "link" }, if harmful_fired { plan.fault_name } else { "short_write" }),
                         format!("write of {} payload bytes returned Ok but only {} of {} frame bytes reached the stream", p.len(), emitted.len(), frame.len()));
-                }
-                if emitted != &frame[..] {
+                } else {
                     return viol("c14/misframed", if is_tpkt { "tpkt" } else { "link" }, format!("emitted {} bytes differ from the reference framing ({} bytes); header {:02x?}", emitted.len(), frame.len(), &emitted[..emitted.len().min(4)]));
                 }
                 reference.extend_from_slice(&frame);
             }
             Err(e) => {
-                if !harmful_fired {
+                if !harmful_fired && unfinished.is_none() {
                     return viol("c14/spurious-error", &format!("{} {}", if is_tpkt { "tpkt" } else { "link" }, err_kind(&e)), format!("write of {} bytes failed with {} although the stream only shortened writes", p.len(), err_kind(&e)));
                 }
-                if emitted.len() > frame.len() || emitted != &frame[..emitted.len()] {
-                    return viol("c14/misframed-on-error", if is_tpkt { "tpkt" } else { "link" }, format!("after {} the stream holds {} bytes that are not a prefix of the reference framing", err_kind(&e), emitted.len()));
+                if !harmful_fired {
+                    // refused because an earlier frame was left unfinished: nothing may have been emitted
+                    if !emitted.is_empty() && resumes.is_none() {
+                        return viol("c14/misframed-on-error", if is_tpkt { "tpkt" } else { "link" }, format!("write refused with {} after an earlier failure, yet {} bytes were emitted", err_kind(&e), emitted.len()));
+                    }
+                    ctxrc.borrow_mut().probe("refused_after_a_cut_frame");
+                    if let (Some(k), Some((f, _))) = (resumes, unfinished.clone()) { unfinished = Some((f, k + emitted.len())); }
+                    continue;
+                }
+                if let Some(k) = resumes {
+                    if let Some((f, _)) = unfinished.clone() { unfinished = Some((f, k + emitted.len())); }
+                } else {
+                    if emitted.len() > frame.len() || emitted != &frame[..emitted.len()] {
+                        return viol("c14/misframed-on-error", if is_tpkt { "tpkt" } else { "link" }, format!("after {} the stream holds {} bytes that are not a prefix of the reference framing", err_kind(&e), emitted.len()));
+                    }
+                    unfinished = if !emitted.is_empty() && emitted.len() < frame.len() { Some((frame.clone(), emitted.len())) } else { None };
                 }
                 ctxrc.borrow_mut().probe("error_reported");
                 ctxrc.borrow_mut().nontrivial = true;
-                // the fault is over; what the caller writes next must again be exactly one frame
+                // the fault is over; what the caller writes next must again be exactly one frame, or be refused
                 {
                     let mut c = cfgrc.borrow_mut();
                     c.write_fail_at = None;
